@@ -112,6 +112,9 @@ def gen(rng, ntempl=None, allow_anon=True, branchpoints=True, xta_common=False):
     if M.chans and rng.random() < 0.2:
         a, b = rng.choice(M.chans), rng.choice(M.chans)
         M.chanprio = 'chan priority ' + rng.choice(['%s < default' % a, 'default < %s' % a, '%s < default < %s' % (a, b) if a != b else '%s < default' % a, '%s, %s < default' % (a, b) if a != b else 'default < %s' % a, '%s < %s' % (a, b) if a != b else '%s < default' % a]) + ';\n'
+    # the XML format has an <instantiation> element for the lines before `system`: some models use it (a declaration among them when inst_decl is set by the caller)
+    M.inst_layout = rng.random() < 0.25
+    M.inst_decl = ''
     return M
 
 
@@ -154,7 +157,7 @@ def global_decl(M):
 
 
 def system_text(M):
-    s = ''
+    s = getattr(M, 'inst_decl', '')
     for p in M.processes:
         own = p.get('own') or []
         if p.get('via'):
@@ -201,7 +204,12 @@ def render_xml(M, rng=None):
                 out.append('<label kind="%s">%s</label>' % (kmap[k], XESC(ltext(M, k, m))))
             out.append('<nail x="1" y="1"/></transition>\n')
         out.append('</template>\n')
-    out.append('<system>%s</system>\n</nta>\n' % XESC(system_text(M)))
+    st = system_text(M)
+    cut = st.rfind('system ')
+    if getattr(M, 'inst_layout', False) and not getattr(M, 'old', False) and cut > 0:
+        out.append('<instantiation>%s</instantiation>\n<system>%s</system>\n</nta>\n' % (XESC(st[:cut]), XESC(st[cut:])))
+    else:
+        out.append('<system>%s</system>\n</nta>\n' % XESC(st))
     return ''.join(out)
 
 
